@@ -294,3 +294,22 @@ def record_test_suite(tests="tests"):
     finally:
         shutil.rmtree(wd, ignore_errors=True)
     return data
+
+
+def run_apalache(spec, inv, *, init="Init", next_="Next", length=0, timeout=900):
+    """Apalache (symbolic, SMT): returns (ok: bool, output). Machinery failure on anything but OK / invariant violation."""
+    wd = workdir("apalache")
+    try:
+        p = subprocess.run(["apalache-mc", "check", "--init=" + init, "--next=" + next_, "--inv=" + inv,
+                            "--length=%d" % length, "--out-dir=" + str(wd), str(SPEC / spec)],
+                           cwd=str(SPEC), capture_output=True, text=True, timeout=timeout)
+    except subprocess.TimeoutExpired:
+        raise MachineryFailure("apalache timed out on %s" % spec)
+    finally:
+        shutil.rmtree(wd, ignore_errors=True)
+    out = p.stdout + p.stderr
+    if "EXITCODE: OK" in out:
+        return True, out
+    if "EXITCODE: ERROR (12)" in out:
+        return False, out
+    raise MachineryFailure("apalache failed on %s\n%s" % (spec, out[-2000:]))
